@@ -82,13 +82,16 @@ class Model:
             return 'none'
         return '%s#%d' % (ev[0], ev[1])
 
-    def callback(self, ms):
+    def callback(self, ms, may_throw=True):
         """script hook after every behaviour (same ordinal scheme as rt.hpp)"""
         k = self.ordinal
         self.ordinal += 1
         for sc in self.scripts.get(k, ()):
             self.fired += 1
             if sc[0] == 't':
+                if not may_throw:
+                    self.tok('!nothrow')
+                    continue
                 self.tok('!throw')
                 raise ModelThrow()
             elif sc[0] == 'p':
@@ -175,6 +178,13 @@ class Model:
             restore = evname in h['shallow']
         sub.running = True
         sub.processing = True
+        try:
+            self._enter_machine_body(sub, ev, how, m, named, all_named, restore)
+        except ModelThrow:
+            sub.processing = False      # the machine must stay usable after a throwing entry behaviour (C12)
+            raise
+
+    def _enter_machine_body(self, sub, ev, how, m, named, all_named, restore):
         if self.dialect == 'back':
             sub.active = list(sub.hist) if restore else [reg[0] for reg in m['regions']]
             self.tok('en:%s/%s' % (m['name'], self.evdesc(ev)))
@@ -395,7 +405,7 @@ class Model:
             return self.step(ms, ev, report_nt)
         except ModelThrow:
             self.tok('xc:%s/%s' % (ms.m['name'], self.evdesc(ev)))
-            self.callback(ms)
+            self.callback(ms, False)
             return set()
 
     # ------------------------------------------------------------------ back / back11 queue mechanics
@@ -542,7 +552,7 @@ class Model:
                         result.add(REJECTED)
             except ModelThrow:
                 self.tok('xc:%s/none' % ms.m['name'])
-                self.callback(ms)
+                self.callback(ms, False)
                 result = set()
         finally:
             ms.processing = False
